@@ -35,6 +35,7 @@ pub trait Dur: Sized {
     fn count(&self) -> Option<u64>;
     fn dbg(&self) -> String;
     fn to_json(&self) -> String;
+    fn to_blob(&self, m: u8) -> String;
     fn from_json(&self, s: &str) -> Result<Self, String>;
     fn dup(&self) -> Self;
     fn as_quantile(&self) -> Option<&Quantile> {
@@ -78,6 +79,9 @@ impl<E: Est> Dur for E {
     }
     fn to_json(&self) -> String {
         Est::to_json(self)
+    }
+    fn to_blob(&self, m: u8) -> String {
+        Est::to_blob(self, m)
     }
     fn from_json(&self, s: &str) -> Result<Self, String> {
         <E as Est>::from_json(s)
@@ -124,8 +128,11 @@ impl Dur for QDur {
     fn to_json(&self) -> String {
         serde_json::to_string(&self.0).expect("serialize")
     }
+    fn to_blob(&self, m: u8) -> String {
+        crate::medium::encode(&self.0, m).unwrap_or_else(|_| self.to_json())
+    }
     fn from_json(&self, s: &str) -> Result<Self, String> {
-        serde_json::from_str(s).map(QDur).map_err(|e| e.to_string())
+        crate::medium::decode(s).map(QDur)
     }
     fn dup(&self) -> Self {
         QDur(self.0.clone())
@@ -177,6 +184,9 @@ impl Dur for HDur {
     }
     fn to_json(&self) -> String {
         self.0.to_json()
+    }
+    fn to_blob(&self, m: u8) -> String {
+        self.0.to_blob(m)
     }
     fn from_json(&self, s: &str) -> Result<Self, String> {
         self.0.from_json_same(s).map(HDur)
@@ -262,6 +272,8 @@ fn obs_diff(a: &[(String, f64)], b: &[(String, f64)]) -> Option<String> {
 struct Ckpt {
     pos: usize, // number of stream operations (Add/Merge) consumed
     json: String,
+    /// what the storage medium holds (medium.rs)
+    blob: String,
     obs: Vec<(String, f64)>,
     dbg: String,
 }
@@ -382,8 +394,13 @@ fn run_d<T: Dur>(prop: DProp, tr: &DTrace, st: &mut Stats) -> Result<(), Viol> {
                         st.bump("probe.checkpoint_nonfinite_skipped");
                     } else {
                         st.bump("fault.restored_merge_operand");
-                        side = side.from_json(&json).map_err(|er| {
-                            Viol::new(format!("{}:restore_parse", T::type_name()), format!("side operand does not deserialise: {} json={}", er, json))
+                        let blob = side.to_blob(crate::medium::pick(&json));
+                        st.bump(crate::medium::key_of_blob(&blob));
+                        side = side.from_json(&blob).map_err(|er| {
+                            Viol::new(
+                                format!("{}:restore_parse", T::type_name()),
+                                format!("side operand does not deserialise from medium {}: {} json={}", crate::medium::name_of_blob(&blob), er, json),
+                            )
                         })?;
                     }
                 }
@@ -395,8 +412,12 @@ fn run_d<T: Dur>(prop: DProp, tr: &DTrace, st: &mut Stats) -> Result<(), Viol> {
     };
 
     let restore_from = |ck: &Ckpt, proto: &T, st: &mut Stats| -> Result<T, Viol> {
-        let r = proto.from_json(&ck.json).map_err(|er| {
-            Viol::new(format!("{}:restore_parse", T::type_name()), format!("checkpoint does not deserialise: {} json={}", er, ck.json))
+        st.bump(crate::medium::key_of_blob(&ck.blob));
+        let r = proto.from_json(&ck.blob).map_err(|er| {
+            Viol::new(
+                format!("{}:restore_parse", T::type_name()),
+                format!("checkpoint does not deserialise from medium {}: {} json={}", crate::medium::name_of_blob(&ck.blob), er, ck.json),
+            )
         })?;
         if prop == DProp::C18 {
             st.oracle_evals += 1;
@@ -467,7 +488,8 @@ fn run_d<T: Dur>(prop: DProp, tr: &DTrace, st: &mut Stats) -> Result<(), Viol> {
                 if is_q && pos < 5 {
                     st.bump("probe.checkpoint_inside_first_five");
                 }
-                ckpts.push(Ckpt { pos, json, obs, dbg });
+                let blob = node.to_blob(crate::medium::pick(&json));
+                ckpts.push(Ckpt { pos, json, blob, obs, dbg });
             }
             DOp::Crash | DOp::Stale { .. } => {
                 let fresh = mk("restart")?;
@@ -547,7 +569,8 @@ fn run_d<T: Dur>(prop: DProp, tr: &DTrace, st: &mut Stats) -> Result<(), Viol> {
                         break;
                     }
                     st.bump("fault.migrate");
-                    let ck = Ckpt { pos, json, obs: node.observe(), dbg: node.dbg() };
+                    let blob = node.to_blob(crate::medium::pick(&json));
+                    let ck = Ckpt { pos, json, blob, obs: node.observe(), dbg: node.dbg() };
                     node = restore_from(&ck, &node, st)?;
                 }
             }
